@@ -531,6 +531,22 @@ def discharge_call(P, f, sym, c):
                     slack = bound.add(idx, -1)
                     if not slack.a and ((opn in ("Ge", "Eq") and slack.c >= 1) or (opn == "Gt" and slack.c >= 0)):
                         return True, "G1: index %s under a dominating len() %s %s test on the same collection" % (idx.render(), opn, bound.render()), "index:%s[sym]" % short_path(re.sub(r"<.*", "", st))
+        # a map indexed with one of its own keys: `for name in sorted(map.keys()) { &map[name] }` — the key comes from `keys()` of the very map that is
+        # indexed, and nothing in the function removes from that map
+        if re.search(r"HashMap|BTreeMap", st or "") and len(c.args) > 1:
+            def keys_of(o, d=0):
+                while o[0] == "proj":
+                    o = o[1]
+                if d > 10 or o[0] != "call" or not o[1].args:
+                    return None
+                if o[1].name in ("keys", "into_keys"):
+                    return f.describe_origin(f.origin(o[1].args[0]), deep=3)
+                return keys_of(f.origin(o[1].args[0]), d + 1)
+            ksrc = keys_of(f.origin(c.args[1]))
+            shrinks = [c2 for c2 in f.calls if c2.name in ("remove", "remove_entry", "clear", "retain", "drain", "extract_if") and c2.args
+                       and _norm(f.describe_origin(f.origin(c2.args[0]), deep=3)) == _norm(recv)]
+            if ksrc is not None and _norm(ksrc) == _norm(recv) and not shrinks:
+                return True, "G4: a map indexed with a key taken from its own keys(), and never shrunk in this function", "index:%s[own-key]" % short_path(re.sub(r"<.*", "", st))
         return False, "index into %s with a non-constant index / key" % short_path(re.sub(r"<.*", "", st)), "index:%s[?]" % short_path(re.sub(r"<.*", "", st))
     # ---------------------------------------------------------------- unwrap / expect
     m = re.search(r"(Option|Result)::<[^>]*>::(unwrap|expect|unwrap_err|expect_err)$", p)
